@@ -707,6 +707,24 @@ func (n *node) par(i int, op Op) error {
 		// this serial order leaves (then a listed finding of a sequential
 		// operation explains the difference, and is reported as such below).
 		run.diskEq = equalStrings(run.st.disk, got.disk) || equalStrings(got.disk, got.table)
+		if !run.diskEq {
+			// A store takes its snapshot of the table after its operation has
+			// unlocked, so in an overlapped run the snapshot may include later
+			// operations of the order, never fewer: leases.json may be the
+			// table at any moment of this order from the one the serial
+			// execution's file corresponds to onwards.
+			k0 := -1
+			for k := range run.tables {
+				if equalStrings(run.tables[k], run.st.disk) {
+					k0 = k
+				}
+			}
+			for k := k0; k0 >= 0 && k < len(run.tables); k++ {
+				if equalStrings(run.tables[k], got.disk) {
+					run.diskEq = true
+				}
+			}
+		}
 		if best == nil || run.score() > best.score() {
 			best = run
 		}
@@ -782,6 +800,11 @@ func (n *node) par(i int, op Op) error {
 		// leases.json differs from the table until the next store, as after a
 		// listed stale-disk finding of a sequential operation.
 		n.staleSig = strings.Join(got.disk, ";") + " != " + strings.Join(got.table, ";")
+	} else if !equalStrings(got.disk, got.table) {
+		// Explained by the serial order, in which a listed finding of a
+		// sequential operation (reported above, by the sequential oracle on the
+		// replica) leaves the file behind the table.
+		n.staleSig = strings.Join(got.disk, ";") + " != " + strings.Join(got.table, ";")
 	}
 
 	// -- the invariants on the live server, as after any operation.
@@ -836,25 +859,24 @@ func (n *node) parMismatch(i int, op Op, tasks [][]Op, outs [][]subOut, got full
 	return kernel.Violationf(class, "%s", b.String())
 }
 
-// requestWindowSignature recognises, in the state the live server is left in,
-// the two listed consequences of DHCPREQUEST looking its lease up in one
-// critical section and committing it in a second one (par-request-acked-*):
-// the request of client X was acknowledged address a, and
-//
-//   - the table holds no dynamic lease (X, a), another task of the phase ran an
-//     operation that removes leases (static add / update / remove, reset), and
-//     either the indexes hold an entry for a dynamic lease (X, a) (that was
-//     not there before the phase), or the closest serial execution (best) does
-//     not answer the request the same way: the lease was removed between
-//     lookup and commit, the commit indexed the removed lease; or
-//   - the table holds no lease (X, a) but a dynamic lease (Y, a) of a client Y
-//     that another task's DISCOVER was offered a in this phase: the lease entry
-//     was re-used for Y (pool full, entry expired or never acknowledged)
-//     between lookup and commit, the commit renewed what is now Y's lease.
-//
-// Anything else stays with the general classes.
+// requestWindowSignature recognises the listed consequences of DHCPREQUEST
+// looking its lease up in one critical section and committing it in a second
+// one (par-request-acked-*).  What is left of them varies (index entries for a
+// lease outside the table, an answer no serial order gives, another client's
+// lease renewed), so the pattern is taken from what they have in common: the
+// run differs from every serial order in answers, table or index entries (not
+// merely in the pool bitset or in leases.json), a REQUEST of this phase was
+// acknowledged address a to client X (which had no reservation for a before
+// the phase, or one that an overlapped operation can remove), the table afterwards holds no dynamic lease (X, a), and another
+// task ran an operation that can take a lease entry
+// away: one that removes leases (static add / update / remove, reset) or one
+// that allocates (DISCOVER, DECLINE: on a full pool they re-use an expired or
+// merely offered entry in place).  When the table then holds a as a dynamic
+// lease of a client Y that such a DISCOVER was offered a, the entry was re-used
+// between lookup and commit (-recycled-lease), else it was removed
+// (-removed-lease).  Anything else stays with the general classes.
 func requestWindowSignature(tasks [][]Op, outs [][]subOut, raw, rawBefore *dhcpd.VerifV4Table, best *serialRun) (class, note string) {
-	if raw == nil || rawBefore == nil {
+	if raw == nil || rawBefore == nil || (best.ansEq && best.tableEq && best.dnsEq) {
 		return "", ""
 	}
 	type given struct {
@@ -863,12 +885,16 @@ func requestWindowSignature(tasks [][]Op, outs [][]subOut, raw, rawBefore *dhcpd
 		task, k int
 	}
 	var acks, offers []given
-	remover := map[int]bool{}
+	// taker: tasks with an operation that can take a dynamic lease entry away,
+	// unreserver: tasks with one that can remove a reservation.
+	taker, unreserver := map[int]bool{}, map[int]bool{}
 	for j := range tasks {
 		for k, sub := range tasks[j] {
 			switch sub.K {
-			case "sadd", "supd", "srm", "reset":
-				remover[j] = true
+			case "supd", "srm", "reset":
+				taker[j], unreserver[j] = true, true
+			case "sadd", "discover", "decline":
+				taker[j] = true
 			}
 			for _, r := range outs[j][k].replies {
 				if !r.Yi.IsValid() || r.Yi.IsUnspecified() {
@@ -884,86 +910,41 @@ func requestWindowSignature(tasks [][]Op, outs [][]subOut, raw, rawBefore *dhcpd
 			}
 		}
 	}
-	vl := func(l dhcpd.VerifLease) string {
-		return lease{IP: l.IP, MAC: l.HWAddr.String(), Host: l.Hostname, Exp: l.Expiry, Static: l.IsStatic}.String()
-	}
-	// Index entries that pointed to a lease outside the table already before
-	// the phase (left behind by a listed finding of a sequential operation).
-	was := map[string]bool{}
-	inBefore := map[string]bool{}
-	for _, l := range rawBefore.Leases {
-		inBefore[vl(l)] = true
-	}
-	for ip, l := range rawBefore.IPIndex {
-		if !inBefore[vl(l)] {
-			was[fmt.Sprintf("addr %s -> [%s]", ip, vl(l))] = true
-		}
-	}
-	for h, l := range rawBefore.HostsIndex {
-		if !inBefore[vl(l)] {
-			was[fmt.Sprintf("name %q -> [%s]", h, vl(l))] = true
-		}
-	}
 	for _, a := range acks {
 		inTable := false
 		var other *dhcpd.VerifLease
 		for idx, l := range raw.Leases {
-			if l.IP != a.ip {
+			if l.IP != a.ip || l.IsStatic {
 				continue
 			}
-			if l.HWAddr.String() == a.mac && !l.IsStatic {
+			if l.HWAddr.String() == a.mac {
 				inTable = true
-			} else if l.HWAddr.String() != a.mac && !l.IsStatic {
+			} else {
 				other = &raw.Leases[idx]
 			}
 		}
-		if inTable {
-			continue
-		}
-		otherRemover := false
+		otherTaker, otherUnreserver := false, false
 		for j := range tasks {
-			otherRemover = otherRemover || (j != a.task && remover[j])
+			otherTaker = otherTaker || (j != a.task && taker[j])
+			otherUnreserver = otherUnreserver || (j != a.task && unreserver[j])
 		}
-		orphan := func(key string, l dhcpd.VerifLease) bool {
-			if !otherRemover || l.IsStatic || l.IP != a.ip || was[key+vl(l)+"]"] {
-				return false
-			}
-			for _, tl := range raw.Leases {
-				if tl.IP == l.IP && !tl.IsStatic && tl.HWAddr.String() == l.HWAddr.String() {
-					// The entry points to a lease of the table.
-					return false
-				}
-			}
-			if l.HWAddr.String() == a.mac {
-				return true
-			}
-			// Both at once: the entry was first re-used for a client that an
-			// overlapped DISCOVER offered the address, then removed.
-			for _, o := range offers {
-				if o.task != a.task && o.ip == a.ip && o.mac == l.HWAddr.String() {
-					return true
-				}
-			}
-			return false
+		for _, l := range rawBefore.Leases {
+			// A client that came into the phase with a reservation for a which
+			// no overlapped operation can remove: its REQUEST finds the static
+			// lease and commits nothing.
+			inTable = inTable || (!otherUnreserver && l.IsStatic && l.IP == a.ip && l.HWAddr.String() == a.mac)
 		}
-		if l, ok := raw.IPIndex[a.ip]; ok && orphan(fmt.Sprintf("addr %s -> [", a.ip), l) {
-			return "par-request-acked-removed-lease", fmt.Sprintf("Listed pattern: %s was acknowledged %s, the table holds no such lease, yet the address index holds an entry [%s] for it: the lease was removed by an overlapped administrator operation between the request's lookup and its commit, and the commit indexed the removed lease.", a.mac, a.ip, vl(l))
-		}
-		for _, h := range sortedKeys(raw.HostsIndex) {
-			if l := raw.HostsIndex[h]; orphan(fmt.Sprintf("name %q -> [", h), l) {
-				return "par-request-acked-removed-lease", fmt.Sprintf("Listed pattern: %s was acknowledged %s, the table holds no such lease, yet the hostname index holds an entry %q -> [%s] for it: the lease was removed by an overlapped administrator operation between the request's lookup and its commit, and the commit indexed the removed lease.", a.mac, a.ip, h, vl(l))
-			}
-		}
-		if otherRemover && len(best.outs[a.task]) > a.k && best.outs[a.task][a.k].ans != outs[a.task][a.k].ans {
-			return "par-request-acked-removed-lease", fmt.Sprintf("Listed pattern: %s was acknowledged %s (in the closest serial order the request is answered %s), the table holds no such lease, and an overlapped administrator operation removes leases: the lease was removed between the request's lookup and its commit, the client was acknowledged an address the table does not hold for it.", a.mac, a.ip, best.outs[a.task][a.k].ans)
+		if inTable || !otherTaker {
+			continue
 		}
 		if other != nil {
 			for _, o := range offers {
 				if o.task != a.task && o.ip == a.ip && o.mac == other.HWAddr.String() {
-					return "par-request-acked-recycled-lease", fmt.Sprintf("Listed pattern: %s was acknowledged %s, but the table holds that address for %s, which an overlapped DISCOVER was offered it: the lease entry was re-used for the other client between the request's lookup and its commit, and the commit renewed what is now the other client's lease.", a.mac, a.ip, o.mac)
+					return "par-request-acked-recycled-lease", fmt.Sprintf("Listed pattern: %s was acknowledged %s, but the table holds that address for %s, which an overlapped DISCOVER was offered it, and no lease for %s: the lease entry was re-used for the other client between the request's lookup and its commit, and the commit renewed what is now the other client's lease.", a.mac, a.ip, o.mac, a.mac)
 				}
 			}
 		}
+		return "par-request-acked-removed-lease", fmt.Sprintf("Listed pattern: %s was acknowledged %s, the table afterwards holds no dynamic lease for that pair, and an overlapped operation takes lease entries away: the lease was removed (or re-used and then removed) between the request's lookup and its commit, the commit worked on an entry that is no longer the table's.", a.mac, a.ip)
 	}
 	return "", ""
 }
